@@ -1,0 +1,155 @@
+//go:build verif
+
+// Contracts for package linkedhashmap (comment-only; read by /verif/engine, never compiled into the package).
+
+package linkedhashmap
+
+//@ -- ghost: the position of every key in the ordering list
+//@ ghost field Map.rank mapfrom table int
+
+//@ -- abstract view: the duplicate-free key sequence K (insertion order) and the finite map m.table
+//@ pred K(m) := doublylinkedlist.Seq(m.ordering)
+//@ pred N(m) := m.ordering.size
+//@ pred Has(m, k) := has(m.table, k)
+//@ pred Val(m, k) := m.table[k]
+//@ pred Inv(m) := m != nil && m.table != nil && m.ordering != nil && doublylinkedlist.Inv(m.ordering) && len(m.table) == m.ordering.size
+//@     && (forall i :: 0 <= i && i < N(m) ==> has(m.table, K(m)[i]) && m.rank[K(m)[i]] == i)
+//@     && (forall k like keyof(m.table) :: has(m.table, k) ==> 0 <= m.rank[k] && m.rank[k] < N(m) && K(m)[m.rank[k]] == k)
+//@ pred Config(m) := m.table == old(m.table) && m.ordering == old(m.ordering)
+
+//@ func New
+//@   modifies nothing
+//@   ensures [C01 C09 C15 C17] fresh(result) && Inv(result) && N(result) == 0 && fresh(result.table) && fresh(result.ordering)
+
+//@ func Map.Put
+//@   requires Inv(m)
+//@   modifies map(m.table), m.rank, m.ordering.first, m.ordering.last, m.ordering.size, m.ordering.nodes
+//@   modifies each e like m.ordering.first where e.owner == m.ordering : e.next
+//@   at after Append#1: m.rank[key] := m.ordering.size - 1
+//@   ensures [C01 C09 C17] Inv(m) && Config(m) && Has(m, key) && Val(m, key) == value
+//@   ensures [C01] others: forall k like key :: k != key ==> (Has(m, k) <==> old(Has(m, k))) && Val(m, k) == old(Val(m, k))
+//@   ensures [C09] present: old(Has(m, key)) ==> K(m) == old(K(m))
+//@   ensures [C09] absent: !old(Has(m, key)) ==> K(m) == old(K(m)) ++ [key]
+
+//@ func Map.Get
+//@   requires Inv(m)
+//@   modifies nothing
+//@   ensures [C01 C17 C18] found == Has(m, key) && (found ==> value == Val(m, key)) && (!found ==> value == zero(value))
+
+//@ func Map.Remove
+//@   requires Inv(m)
+//@   modifies map(m.table), m.rank, m.ordering.first, m.ordering.last, m.ordering.size, m.ordering.nodes
+//@   modifies each e like m.ordering.first where e.owner == m.ordering : e.next, e.prev, e.idx
+//@   at after Remove#1: m.rank := \k like key => ite(m.rank[k] > arg1, m.rank[k] - 1, m.rank[k])
+//@   ensures [C01 C09 C17] Inv(m) && Config(m) && !Has(m, key)
+//@   ensures [C01] others: forall k like key :: k != key ==> (Has(m, k) <==> old(Has(m, k))) && Val(m, k) == old(Val(m, k))
+//@   ensures [C09] present: old(Has(m, key)) ==> K(m) == old(K(m))[:old(m.rank[key])] ++ old(K(m))[old(m.rank[key])+1:]
+//@   ensures [C01 C09] absent: !old(Has(m, key)) ==> K(m) == old(K(m))
+
+//@ func Map.Empty
+//@   requires Inv(m)
+//@   modifies nothing
+//@   ensures [C15 C17 C18] result == (N(m) == 0)
+
+//@ func Map.Size
+//@   requires Inv(m)
+//@   modifies nothing
+//@   ensures [C01 C15 C17 C18] result == N(m) && result == len(m.table) && result >= 0
+
+//@ func Map.Keys
+//@   requires Inv(m)
+//@   modifies nothing
+//@   ensures [C01 C09 C15 C16 C17 C18] fresh(arr(result)) && seq(result) == K(m)
+
+//@ func Map.Values
+//@   requires Inv(m)
+//@   modifies nothing
+//@   ensures [C01 C09 C15 C16 C17 C18] fresh(arr(result)) && len(result) == N(m) && (forall j :: 0 <= j && j < N(m) ==> result[j] == Val(m, K(m)[j]))
+//@   loop 1:
+//@     invariant ItInv(it) && fresh(it) && it.iterator.list == m.ordering && it.table == m.table && count == min(it.iterator.index + 1, N(m))
+//@     invariant len(values) == N(m) && fresh(arr(values))
+//@     invariant forall j :: 0 <= j && j < count ==> values[j] == Val(m, K(m)[j])
+//@     decreases N(m) - it.iterator.index
+
+//@ func Map.Clear
+//@   requires Inv(m)
+//@   modifies map(m.table), m.ordering.first, m.ordering.last, m.ordering.size
+//@   ensures [C01 C09 C15 C17] Inv(m) && Config(m) && N(m) == 0 && (forall k like keyof(m.table) :: !Has(m, k))
+
+// ---- iterator: a cursor over positions -1..n of K(m), Value() = table[Key()] (C08) ----
+
+//@ pred ItSeq(it) := doublylinkedlist.Seq(it.iterator.list)
+//@ pred ItInv(it) := it != nil && doublylinkedlist.ItInv(it.iterator)
+
+//@ func Map.Iterator
+//@   requires Inv(m)
+//@   modifies nothing
+//@   ensures [C08 C17 C18] fresh(result) && ItInv(result) && result.iterator.list == m.ordering && result.table == m.table && result.iterator.index == 0 - 1
+
+//@ func Iterator.Next
+//@   requires ItInv(iterator)
+//@   modifies iterator.iterator.index, iterator.iterator.element
+//@   ensures [C08 C17] ItInv(iterator) && iterator.iterator.index == min(old(iterator.iterator.index) + 1, len(ItSeq(iterator)))
+//@   ensures [C08] result == (0 <= iterator.iterator.index && iterator.iterator.index < len(ItSeq(iterator)))
+
+//@ func Iterator.Prev
+//@   requires ItInv(iterator)
+//@   modifies iterator.iterator.index, iterator.iterator.element
+//@   ensures [C08 C17] ItInv(iterator) && iterator.iterator.index == max(old(iterator.iterator.index) - 1, 0 - 1)
+//@   ensures [C08] result == (0 <= iterator.iterator.index && iterator.iterator.index < len(ItSeq(iterator)))
+
+//@ func Iterator.Key
+//@   requires ItInv(iterator) && 0 <= iterator.iterator.index && iterator.iterator.index < len(ItSeq(iterator))
+//@   modifies nothing
+//@   ensures [C08 C17 C18] result == ItSeq(iterator)[iterator.iterator.index]
+
+//@ func Iterator.Value
+//@   requires ItInv(iterator) && 0 <= iterator.iterator.index && iterator.iterator.index < len(ItSeq(iterator))
+//@   modifies nothing
+//@   ensures [C08 C17 C18] result == iterator.table[ItSeq(iterator)[iterator.iterator.index]]
+
+//@ func Iterator.Begin
+//@   requires ItInv(iterator)
+//@   modifies iterator.iterator.index, iterator.iterator.element
+//@   ensures [C08 C17] ItInv(iterator) && iterator.iterator.index == 0 - 1
+
+//@ func Iterator.End
+//@   requires ItInv(iterator)
+//@   modifies iterator.iterator.index, iterator.iterator.element
+//@   ensures [C08 C17] ItInv(iterator) && iterator.iterator.index == len(ItSeq(iterator))
+
+//@ func Iterator.First
+//@   requires ItInv(iterator)
+//@   modifies iterator.iterator.index, iterator.iterator.element
+//@   ensures [C08 C17] ItInv(iterator) && iterator.iterator.index == 0 && result == (len(ItSeq(iterator)) > 0)
+
+//@ func Iterator.Last
+//@   requires ItInv(iterator)
+//@   modifies iterator.iterator.index, iterator.iterator.element
+//@   ensures [C08 C17] ItInv(iterator) && iterator.iterator.index == len(ItSeq(iterator)) - 1 && result == (len(ItSeq(iterator)) > 0)
+
+//@ func Iterator.NextTo
+//@   requires ItInv(iterator) && f != nil
+//@   modifies iterator.iterator.index, iterator.iterator.element
+//@   ensures [C08 C17] ItInv(iterator)
+//@   ensures [C08] found: result ==> old(iterator.iterator.index) < iterator.iterator.index && iterator.iterator.index < len(ItSeq(iterator))
+//@     && f(ItSeq(iterator)[iterator.iterator.index], iterator.table[ItSeq(iterator)[iterator.iterator.index]])
+//@     && (forall j :: old(iterator.iterator.index) < j && j < iterator.iterator.index ==> !f(ItSeq(iterator)[j], iterator.table[ItSeq(iterator)[j]]))
+//@   ensures [C08] notfound: !result ==> iterator.iterator.index == len(ItSeq(iterator)) && (forall j :: old(iterator.iterator.index) < j && j < len(ItSeq(iterator)) ==> !f(ItSeq(iterator)[j], iterator.table[ItSeq(iterator)[j]]))
+//@   loop 1:
+//@     invariant ItInv(iterator) && old(iterator.iterator.index) <= iterator.iterator.index
+//@     invariant forall j :: old(iterator.iterator.index) < j && j <= iterator.iterator.index && j < len(ItSeq(iterator)) ==> !f(ItSeq(iterator)[j], iterator.table[ItSeq(iterator)[j]])
+//@     decreases len(ItSeq(iterator)) - iterator.iterator.index
+
+//@ func Iterator.PrevTo
+//@   requires ItInv(iterator) && f != nil
+//@   modifies iterator.iterator.index, iterator.iterator.element
+//@   ensures [C08 C17] ItInv(iterator)
+//@   ensures [C08] found: result ==> 0 <= iterator.iterator.index && iterator.iterator.index < old(iterator.iterator.index)
+//@     && f(ItSeq(iterator)[iterator.iterator.index], iterator.table[ItSeq(iterator)[iterator.iterator.index]])
+//@     && (forall j :: iterator.iterator.index < j && j < old(iterator.iterator.index) ==> !f(ItSeq(iterator)[j], iterator.table[ItSeq(iterator)[j]]))
+//@   ensures [C08] notfound: !result ==> iterator.iterator.index == 0 - 1 && (forall j :: 0 <= j && j < old(iterator.iterator.index) ==> !f(ItSeq(iterator)[j], iterator.table[ItSeq(iterator)[j]]))
+//@   loop 1:
+//@     invariant ItInv(iterator) && iterator.iterator.index <= old(iterator.iterator.index)
+//@     invariant forall j :: iterator.iterator.index <= j && j < old(iterator.iterator.index) && 0 <= j ==> !f(ItSeq(iterator)[j], iterator.table[ItSeq(iterator)[j]])
+//@     decreases iterator.iterator.index + 1
